@@ -307,6 +307,29 @@ class ReachingDefsAnalysis:
         return set(out_ctx.keys() - in_ctx.keys())
 
 
+def _falls_through(block: StmtBlock) -> bool:
+    """
+    Can control reach the end of `block`?
+
+    Follows `Reachability`: a `return` never falls through, an `if`/`else`
+    does unless both branches do not, a `with` does iff its body does;
+    every other statement (loops may run zero times) does.
+    """
+    for stmt in block.stmts:
+        match stmt:
+            case ReturnStmt():
+                return False
+            case IfStmt():
+                if not _falls_through(stmt.ift) and not _falls_through(stmt.iff):
+                    return False
+            case ContextStmt():
+                if not _falls_through(stmt.body):
+                    return False
+            case _:
+                pass
+    return True
+
+
 _DefCtx: TypeAlias = dict[NamedId, int]
 """visitor context: mapping from variable name to definition index"""
 
@@ -424,6 +447,20 @@ class _ReachingDefs(DefaultVisitor):
         # visit both true and false branches
         ift_out = self._visit_block(stmt.ift, ctx)
         iff_out = self._visit_block(stmt.iff, ctx)
+        # A branch that always returns never reaches the merge point, so
+        # the definitions after the `if` are exactly those of the other
+        # branch.  This is the same rule the syntax checker applies
+        # (`_Env.merge` absorbs terminated paths); without it a program
+        # the front end accepts, e.g.
+        #   if c: return a
+        #   else: y = 1
+        #   return y
+        # has no reaching definition for `y` here.
+        ift_live = _falls_through(stmt.ift)
+        iff_live = _falls_through(stmt.iff)
+        if ift_live != iff_live:
+            self.phis[stmt] = {}
+            return dict(ift_out if ift_live else iff_out)
         # introduce phi nodes for:
         # (i) redefinitions in the branches
         # (ii) introductions in both branches
